@@ -282,6 +282,9 @@ class CFile:
 
 def split_top(text, sep=","):
     """Split on top-level separators (not inside parens/brackets/strings)."""
+    if "#" in text:
+        from .cexpr import strip_pp
+        text = strip_pp(text)
     out, depth, cur, i, n = [], 0, [], 0, len(text)
     while i < n:
         c = text[i]
